@@ -16,10 +16,10 @@ import (
 // worker processes and written to replay files.
 type Op struct {
 	Kind string `json:"k"`
-	B    string `json:"b,omitempty"`  // bucket
+	B    string `json:"b,omitempty"`   // bucket
 	K    string `json:"key,omitempty"` // key
-	SB   string `json:"sb,omitempty"` // copy source bucket
-	SK   string `json:"sk,omitempty"` // copy source key
+	SB   string `json:"sb,omitempty"`  // copy source bucket
+	SK   string `json:"sk,omitempty"`  // copy source key
 	Body string `json:"body,omitempty"`
 	// V addresses a version of (B,K): "" none, "null", or "v<ord>" (ordinal assigned by the
 	// model in creation order; the driver maps it to the real id). SV likewise for the copy source.
